@@ -145,6 +145,26 @@ def judge(ctx, case, conforming=False):
         ctx.count("clean_inputs")
 
 
+def omitted_variant(ctx, rng, doc):
+    """The same conforming document with optional tags left out wherever the syntax's omission rules (R-omit, the
+    checker's own reading; DESIGN Appendix D) allow it - still a conforming document, so it must record no error."""
+    from . import c13
+    pcs = conform.pieces(doc)
+    tokens = [t for s, t in pcs]
+    st = c13.analyse(tokens)
+    if st is None:
+        return None
+    parent, match = st
+    removed = set()
+    rate = rng.choice([1.0, 0.8, 0.5])
+    for i, t in enumerate(tokens):
+        if t["type"] in ("StartTag", "EndTag") and rng.random() < rate and c13.allowed(tokens, i, parent, match, removed):
+            removed.add(i)
+            ctx.add("omitted_kinds", "%s %s" % ("<>" if t["type"] == "StartTag" else "</>", t["name"]))
+    ctx.count("tags_omitted_by_R_omit", len(removed))
+    return "".join(s for i, (s, t) in enumerate(pcs) if i not in removed)
+
+
 def shard(ctx):
     k = 0
     for sp in EOF_SPELLINGS:
@@ -169,6 +189,11 @@ def shard(ctx):
             doc = conform.gen_document(rng, 3)
             case = {"input": conform.explicit(doc), "frag": False, "conforming": True}
             judge(ctx, case, conforming=True)
+            om = omitted_variant(ctx, rng, doc)
+            if om is not None and om != case["input"]:
+                case = {"input": om, "frag": False, "conforming": True, "omitted": True}
+                ctx.count("conforming_documents_with_omitted_tags")
+                judge(ctx, case, conforming=True)
         else:
             data = gen.mixed(rng, 30)
             frag = rng.random() < 0.3
